@@ -57,6 +57,8 @@ def lenient(steps):
         return True
     if steps[0].startswith("[") or (len(steps[0]) < 3 and steps[0] != "id"):
         return True
+    if steps[0] == "granular_markings":
+        return True       # a selector into the marking list itself: every marking operation rewrites that list, so what it addresses is not stable
     return False
 
 
